@@ -68,6 +68,7 @@ def render_plant(t, p):
 def classify(kind, sk, info):
     """known classes of violations (ids of entries in known_findings.jsonl)"""
     d = tg.info_dict(info)
+    kind = kind.split("@")[0]        # the same construct after a ret / break / continue
     if kind == "neg-str":
         return "C03-neg-unchecked"
     if kind in ("generic-tuple-cmp", "generic-local-tuple-add"):
